@@ -93,6 +93,10 @@ impl BarState {
 
             let _ = self.draw(false, now);
         }
+
+        // Whatever was done before the reset, seen by the estimator or not (position updates
+        // skipped by the rate limiter are not), does not count as progress made after it.
+        self.state.est.prev_steps = self.state.pos();
     }
 
     pub(crate) fn update(&mut self, now: Instant, f: impl FnOnce(&mut ProgressState), tick: bool) {
